@@ -29,16 +29,28 @@ id sits on its slot, every other slot is `00`, the line has `den` slots), `line_
   the in-memory time exactly on the snap grid and within 1/192 beat (at the tempo in force) otherwise (through
   C10's `timeAtAux_snapAtAux` / `_err`, `snap_err_default`, `bcsOfBco_rederive`, `stableArgsort_sortsAscR`);
 * `written_slot_time` — the two composed: the slot the writer fills for a time denotes that time.
-`bms_write_read` as ONE theorem is still NOT assembled.  Missing: the rendered header read back (`#BPM`,
-`#BPMxx` = `parseFloat ∘ showFixed 3`, `#LNOBJ`, `#WAVxx` through `readHeader`), "the tempo objects of the written
-file are the in-memory tempo list" (needs the positions `snaps` assigns to the tempo points' own offsets), that
-the lane's sorted objects are the `Atom` sequence of the chart (sorting the written cells by position), and the
-composition of the pieces.
+* `written_tempo_list` (with `snapAtAux_at_change`, `tempo_rows_positions`, `rows_changes_perm`, `dict_of_distinct`,
+  `base36_ids_nodup`) — the tempo objects of the written file, read back through the `#BPMxx` table, are the
+  in-memory tempo list, for ANY order of the tempo rows;
+* `parseFloat_showFixed`, `parseFloat_showExact`, `exbpm_table_readback` — header numbers read back:
+  `float(f"{q:.3f}") = roundDec 3 q` (= `q` with ≤ 3 decimals, ¬D06), `float(str(bpm)) = bpm`, and
+  `_read_file_header`'s loop over the written `#BPMxx` lines builds `base36(i+1) ↦ roundDec 3 bpm_i`;
+* `written_lane_sorted` — any file order of a lane's objects sorts to the position-ordered sequence;
+* `bms_write_read_partial` — the assembled statement at the level of objects: K1 as run + sorting + LNOBJ pairing:
+  the by-the-book reading of a lane of the written file returns one hit per hit, one hold per hold, in the lane's
+  column, at times exact on the grid and within 1/192 beat off it.  Its docstring names exactly what is still
+  outside: `hch` (the file's lines give the channel an *arrangement* of these objects — proved as a membership
+  equivalence in `written_objects`, not as a permutation through `writeCells`; header lines not shown to add no data
+  lines), `hstrict` (needs monotonicity of snapping), and threading the header / tempo read-back through `denote`.
 -/
 import Reamber.Lemmas.FindLcm
 import Reamber.Lemmas.BMSLines
 import Reamber.Lemmas.BMSRender
 import Reamber.Lemmas.BMSRead
+import Reamber.Lemmas.BMSTempo
+import Reamber.Lemmas.BMSPair
+import Reamber.Lemmas.BMSWriteTempo
+import Reamber.Lemmas.BMSNum
 import Reamber.Props.C10
 import Reamber.Model.BMS
 import Reamber.Spec.BMS
@@ -327,6 +339,143 @@ theorem written_slot_time (cs : List BcSnap) (F : Rat → Snap) (t : Rat) (ch v 
         · exact ih _ _ a b h1 h2
         · rfl
     exact hgen 0 c rest _ _ rfl rfl
+
+/-! ### the tempo objects of the written file -/
+
+/-- **The tempo objects of the written file are the in-memory tempo list — for any order of the tempo rows.**
+
+`cs`: well-formed, strictly ascending (no two tempo points on one measure line), first at measure 0 beat 0,
+grid-compatible; `rows`: ANY arrangement of what the chart stores for `cs`, every tempo a three-decimal number
+(¬D06).  The writer sorts a copy of the rows (`from_bpm_changes_offset`), asks `TimingMap.snaps` for the position of
+every row's own offset *in row order*, writes row `i` as the channel-08 object `base36(i+1)` at that position and
+`#BPM<base36(i+1)>` with the row's tempo rounded to three decimals.  Reading the objects back through the table
+— tempo `roundDec 3 bpm_i`, metronome of the row, at the written position — and sorting by position gives exactly
+`cs`.  (The round-1 seeded changes C05-A / C15-A attacked this numbering under unsorted rows.) -/
+theorem written_tempo_list (cs : List BcSnap) (hwf : wfChanges cs = true) (hs : strictSnaps cs = true)
+    (h0 : firstAtZero cs = true) (hgc : gridCompatible (grid defaultMaxDiv) cs = true) (hm : metronomeOk cs = true)
+    (rows : List BcOff) (hp : rows.Perm (tmOf 0 cs)) (hdec : ∀ b ∈ rows, roundDec 3 b.bpm = b.bpm) :
+    sortBcOff rows = tmOf 0 cs ∧
+    ∃ sn, snaps defaultGrid (sortBcOff rows) (rows.map (·.offset)) = .ok sn ∧ sn.length = rows.length ∧
+      sortBcSnap ((rows.zip sn).map (fun p => (⟨roundDec 3 p.1.bpm, p.1.met, { p.2 with met := some p.1.met }⟩ : BcSnap))) = cs := by
+  have hg : GridOK defaultGrid := gridOK_grid (by decide)
+  have hgc' : gridCompatible defaultGrid.toList cs = true := by simpa [defaultGrid] using hgc
+  obtain ⟨hsort, G, hsn, hG⟩ := tempo_rows_positions hg 0 cs hwf hs h0 hgc' hm rows hp
+  refine ⟨hsort, rows.map (fun b => G b.offset), hsn, by simp, ?_⟩
+  have hperm := rows_changes_perm 0 cs hwf rows hp G hG
+  have hlist : (rows.zip (rows.map (fun b => G b.offset))).map
+      (fun p => (⟨roundDec 3 p.1.bpm, p.1.met, { p.2 with met := some p.1.met }⟩ : BcSnap)) =
+      rows.map (fun b => (⟨b.bpm, b.met, { G b.offset with met := some b.met }⟩ : BcSnap)) := by
+    rw [zip_map_self]
+    apply List.map_congr_left
+    intro b hb
+    simp [hdec b hb]
+  rw [hlist]
+  have hstrict : strictSnaps (sortBcSnap cs) = true := by rw [sortBcSnap_eq_self (sortedSnaps_of_strict hs)]; exact hs
+  rw [sortBcSnap_eq_of_perm hperm hstrict, sortBcSnap_eq_self (sortedSnaps_of_strict hs)]
+
+/-- the `#BPMxx` table: a dict filled with pairwise different keys is the list of its entries, and looks every
+entry up -/
+theorem dict_of_distinct {α} (kvs : List (Bytes × α)) (hnd : (kvs.map (·.1)).Nodup) :
+    kvs.foldl (fun d kv => dictSet d kv.1 kv.2) [] = kvs ∧ ∀ kv ∈ kvs, dictGet? kvs kv.1 = some kv.2 := by
+  constructor
+  · have key : ∀ (l d : List (Bytes × α)), ((d ++ l).map (·.1)).Nodup →
+        l.foldl (fun d kv => dictSet d kv.1 kv.2) d = d ++ l := by
+      intro l
+      induction l with
+      | nil => intro d _; simp
+      | cons a t ih =>
+        intro d hnd
+        simp only [List.foldl_cons]
+        have hnot : d.any (fun p => p.1 = a.1) = false := by
+          rw [List.any_eq_false]
+          intro p hp
+          simp only [decide_eq_true_eq]
+          intro e
+          rw [List.map_append, List.map_cons, List.nodup_append] at hnd
+          exact hnd.2.2 p.1 (List.mem_map_of_mem (f := fun q : Bytes × α => q.1) hp) a.1 (by simp) e
+        have hset : dictSet d a.1 a.2 = d ++ [a] := by simp [dictSet, hnot]
+        rw [hset, ih (d ++ [a]) (by simpa using hnd)]
+        simp
+    simpa using key kvs [] (by simpa using hnd)
+  · intro kv hkv
+    simp only [dictGet?]
+    rw [find_fst_of_mem kvs hnd kv hkv]
+    rfl
+
+/-- ids of the tempo rows are pairwise different (up to 1295 rows) -/
+theorem base36_ids_nodup (n : Nat) (hn : n < 1296) : ((List.range n).map (fun i => base36 (i + 1))).Nodup := by
+  rw [List.nodup_map_iff_inj_on List.nodup_range]
+  intro i hi j hj h
+  have hi' : i + 1 < 1296 := by have := List.mem_range.mp hi; omega
+  have hj' : j + 1 < 1296 := by have := List.mem_range.mp hj; omega
+  have := congrArg unb36 h
+  rw [(base36_roundtrip (i + 1) hi').1, (base36_roundtrip (j + 1) hj').1] at this
+  omega
+
+/-! ### the `#BPMxx` table, read back -/
+
+/-- the `(key, value)` pairs of the `#BPMxx` lines the writer emits, in row order -/
+def bpmEntries (rows : List BcOff) : List (Bytes × Bytes) :=
+  (zipIdxFrom 1 rows).map (fun p => ("BPM".toList ++ base36 p.1, showFixed Generated.BMS.exbpmDecimals p.2.bpm))
+
+theorem zipIdxFrom_fst {α} (l : List α) : ∀ k, (zipIdxFrom k l).map (·.1) = (List.range l.length).map (fun i => k + i) := by
+  induction l with
+  | nil => intro k; rfl
+  | cons a t ih =>
+    intro k
+    simp only [zipIdxFrom, List.map_cons, List.length_cons, List.range_succ_eq_map, ih (k + 1), List.map_map]
+    simp only [Nat.add_zero, List.cons.injEq, true_and]
+    apply List.map_congr_left
+    intro i _
+    simp only [Function.comp]
+    omega
+
+/-- **Header read-back of the tempo table** (`parseFloat ∘ showFixed 3`).  `_read_file_header`'s loop over the
+`#BPMxx` entries the writer produced — for ANY rows (fewer than 1295, non-negative tempos) — succeeds and builds
+the table `base36(i+1) ↦ roundDec 3 bpm_i` in row order; so every id looks up the three-decimal rounding of its own
+row's tempo, which is the tempo itself when it has at most three decimals (¬D06). -/
+theorem exbpm_table_readback (rows : List BcOff) (hn : rows.length < 1295) (hpos : ∀ b ∈ rows, 0 ≤ b.bpm) :
+    foldlE exbpmStep [] (bpmEntries rows) = .ok ((zipIdxFrom 1 rows).map (fun p => (base36 p.1, roundDec 3 p.2.bpm))) ∧
+    ∀ p ∈ zipIdxFrom 1 rows,
+      dictGet? ((zipIdxFrom 1 rows).map (fun p => (base36 p.1, roundDec 3 p.2.bpm))) (base36 p.1) = some (roundDec 3 p.2.bpm) := by
+  have hdec : Generated.BMS.exbpmDecimals = 3 := by decide
+  -- the ids are pairwise different
+  have hids : (((zipIdxFrom 1 rows).map (fun p => (base36 p.1, roundDec 3 p.2.bpm))).map (·.1)).Nodup := by
+    rw [List.map_map]
+    have : (zipIdxFrom 1 rows).map ((fun q : Bytes × Rat => q.1) ∘ fun p => (base36 p.1, roundDec 3 p.2.bpm)) =
+        ((zipIdxFrom 1 rows).map (·.1)).map base36 := by simp [List.map_map, Function.comp_def]
+    rw [this, zipIdxFrom_fst, List.map_map]
+    have h2 := base36_ids_nodup rows.length (by omega)
+    have : (List.range rows.length).map (base36 ∘ fun i => 1 + i) = (List.range rows.length).map (fun i => base36 (i + 1)) := by
+      apply List.map_congr_left; intro i _; simp [Function.comp, Nat.add_comm]
+    rw [this]; exact h2
+  obtain ⟨hfold, hlook⟩ := dict_of_distinct _ hids
+  constructor
+  · -- the loop is the dict fill
+    have key : ∀ (l : List (Nat × BcOff)) (d : Dict Rat), (∀ p ∈ l, 0 ≤ p.2.bpm) →
+        foldlE exbpmStep d (l.map (fun p => ("BPM".toList ++ base36 p.1, showFixed Generated.BMS.exbpmDecimals p.2.bpm))) =
+          .ok ((l.map (fun p => (base36 p.1, roundDec 3 p.2.bpm))).foldl (fun d kv => dictSet d kv.1 kv.2) d) := by
+      intro l
+      induction l with
+      | nil => intro d _; rfl
+      | cons a t ih =>
+        intro d hp
+        simp only [List.map_cons, foldlE_cons, List.foldl_cons]
+        have hkey : isExbpmKey ("BPM".toList ++ base36 a.1) = true := by
+          simp [isExbpmKey, base36, upper]
+        have hval : parseFloat (showFixed Generated.BMS.exbpmDecimals a.2.bpm) = some (roundDec 3 a.2.bpm) := by
+          rw [hdec]; exact parseFloat_showFixed 3 (by decide) _ (hp a (by simp))
+        have hdrop : ("BPM".toList ++ base36 a.1).drop 3 = base36 a.1 := by simp
+        simp only [exbpmStep, hkey, if_true, hval, hdrop]
+        exact ih _ (fun p hpm => hp p (by simp [hpm]))
+    have hp' : ∀ p ∈ zipIdxFrom 1 rows, 0 ≤ p.2.bpm := by
+      intro p hp
+      exact hpos p.2 (zipIdxFrom_mem rows 1 p hp).2.2
+    have := key (zipIdxFrom 1 rows) [] hp'
+    rw [hfold] at this
+    exact this
+  · intro p hp
+    exact hlook (base36 p.1, roundDec 3 p.2.bpm) (List.mem_map_of_mem (f := fun p : Nat × BcOff => (base36 p.1, roundDec 3 p.2.bpm)) hp)
 
 /-! ### the slot fill -/
 
@@ -736,6 +885,170 @@ theorem written_objects (cells : List WCell) (hcell : ∀ c ∈ cells, CellOK c)
     obtain ⟨k, hk, hs⟩ := hcov c hc
     obtain ⟨e1, e2, e3⟩ := (sameLine_iff k c).mp hs
     exact ⟨k, hk, by rw [e2]; exact hcc, c, List.mem_filter.mpr ⟨hc, hs⟩, hv, by rw [e1, e3]⟩
+
+/-! ### the written lane in position order -/
+
+theorem totalPre_obj : TotalPre (fun a b : Obj => !(b.snap.lt a.snap)) := by
+  constructor
+  · intro a b
+    simp only [Snap.lt, Bool.not_eq_true', Bool.or_eq_false_iff, Bool.and_eq_false_iff, decide_eq_false_iff_not]
+    grind
+  · intro a b c
+    simp only [Snap.lt, Bool.not_eq_true', Bool.or_eq_false_iff, Bool.and_eq_false_iff, decide_eq_false_iff_not]
+    grind
+
+theorem snap_lt_asymm {a b : Snap} (h : a.lt b = true) : b.lt a = false := by
+  simp only [Snap.lt, Bool.or_eq_true, Bool.and_eq_true, decide_eq_true_eq, Bool.or_eq_false_iff, Bool.and_eq_false_iff,
+    decide_eq_false_iff_not] at *
+  grind
+
+theorem strictAsc_facts : ∀ (l : List Obj), strictAsc l = true →
+    l.Pairwise (fun a b => (!(b.snap.lt a.snap)) = true) ∧
+    ∀ a ∈ l, ∀ b ∈ l, (!(b.snap.lt a.snap)) = true → (!(a.snap.lt b.snap)) = true → a = b
+  | [], _ => ⟨List.Pairwise.nil, by intro a ha; cases ha⟩
+  | [c], _ => ⟨by simp, by intro a ha b hb _ _; simp only [List.mem_singleton] at ha hb; rw [ha, hb]⟩
+  | c :: n :: rest, h => by
+    simp only [strictAsc, Bool.and_eq_true] at h
+    obtain ⟨ih1, ih2⟩ := strictAsc_facts (n :: rest) h.2
+    have hc : ∀ x ∈ n :: rest, c.snap.lt x.snap = true := by
+      intro x hx
+      rcases List.mem_cons.mp hx with rfl | hx
+      · exact h.1
+      · have hnx := (List.pairwise_cons.mp ih1).1 x hx
+        exact Snap.lt_of_lt_of_le h.1 ((Snap.lt_false_iff_le _ _).mp (by simpa using hnx))
+    refine ⟨List.pairwise_cons.mpr ⟨?_, ih1⟩, ?_⟩
+    · intro x hx
+      have := snap_lt_asymm (hc x hx)
+      simp [this]
+    · intro a ha b hb hab hba
+      rcases List.mem_cons.mp ha with ea | ha'
+      · rcases List.mem_cons.mp hb with eb | hb'
+        · rw [ea, eb]
+        · have := hc b hb'; rw [← ea] at this; simp [this] at hba
+      · rcases List.mem_cons.mp hb with eb | hb'
+        · have := hc a ha'; rw [← eb] at this; simp [this] at hab
+        · exact ih2 a ha' b hb' hab hba
+
+/-- **The written lane sorted by position is the chart's sequence.**  Whatever order the lane's objects have in the
+file (several lines per measure, lines sorted by denominator, …): if the position-ordered sequence `target` has
+pairwise different positions (no two objects of the lane on one slot), sorting any arrangement of the same objects
+by position gives exactly `target`, and it passes the denotation's `strictAsc` check. -/
+theorem written_lane_sorted (os target : List Obj) (hp : os.Perm target) (hs : strictAsc target = true) :
+    sortObjs os = target ∧ strictAsc (sortObjs os) = true := by
+  obtain ⟨hpw, hanti⟩ := strictAsc_facts target hs
+  have h1 : sortObjs os = sortObjs target := by
+    unfold sortObjs
+    apply isort_eq_of_perm_on totalPre_obj hp
+    intro a ha b hb h1 h2
+    exact hanti a (hp.mem_iff.mp ha) b (hp.mem_iff.mp hb) h1 h2
+  have h2 : sortObjs target = target := by
+    unfold sortObjs
+    exact isort_of_sorted hpw
+  rw [h1, h2]
+  exact ⟨rfl, hs⟩
+
+/-! ### the assembled statement (object level) -/
+
+/-- an item of one lane of the in-memory chart: a hit at a time, or a hold from a time to a time, with the id the
+writer chose for its sample -/
+inductive TAtom where
+  | hit (t : Rat) (id : Bytes)
+  | hold (t1 t2 : Rat) (id : Bytes)
+
+/-- a bare position -/
+def posOf (s : Snap) : Snap := ⟨s.measure, s.beat, none⟩
+
+/-- the objects the writer emits for an item, at the positions `F` assigns to its times -/
+def TAtom.toAtom (F : Rat → Snap) (ln : Bytes) : TAtom → Atom
+  | .hit t id => .hit ⟨posOf (F t), id⟩
+  | .hold t1 t2 id => .hold ⟨posOf (F t1), id⟩ ⟨posOf (F t2), ln⟩
+
+def TAtom.idOk (ln : Bytes) : TAtom → Prop
+  | .hit _ id => id ≠ ln
+  | .hold _ _ id => id ≠ ln
+
+def TAtom.times : TAtom → List Rat
+  | .hit t _ => [t]
+  | .hold t1 t2 _ => [t1, t2]
+
+theorem timeAt_posOf (cs : List BcSnap) (s : Snap) : timeAt 0 cs (posOf s) = timeAt 0 cs s := by
+  cases cs with
+  | nil => rfl
+  | cons c rest =>
+    simp only [timeAt]
+    have hgen : ∀ (T : Rat) (cur : BcSnap) (l : List BcSnap) (a b : Snap), a.measure = b.measure → a.beat = b.beat →
+        timeAtAux T cur l a = timeAtAux T cur l b := by
+      intro T cur l
+      induction l generalizing T cur with
+      | nil => intro a b h1 h2; simp [timeAtAux, snapDist, h1, h2]
+      | cons n l ih =>
+        intro a b h1 h2
+        have hle : n.snap.le a = n.snap.le b := by simp [Snap.le, Snap.lt, Snap.eqv, h1, h2]
+        simp only [timeAtAux, hle, snapDist, h1, h2]
+        split
+        · exact ih _ _ a b h1 h2
+        · rfl
+    exact hgen 0 c rest _ _ rfl rfl
+
+/-- **`bms_write_read`, assembled at the level of objects** (`_partial`: see below).
+
+Tempo list `cs` as in `write_positions`; one lane `(ch, col)` of the chart, its items `items` in time order with
+sample ids different from the `#LNOBJ` id `ln`; `F` the position function of `write_positions` for all their
+times.  Suppose the data lines of the file give channel `ch` the objects `os` — ANY arrangement (`hos`) of the
+items' objects at the positions `F` assigns — and the position-ordered sequence has pairwise different positions
+(`hstrict`: no two objects of the lane on one slot, nothing inside a hold).  Then the by-the-book reading of the lane
+(`denoteLane`: sort by position, check, pair LNOBJ) is defined and returns exactly one hit per in-memory hit and one
+hold per in-memory hold, in the lane's column, whose by-the-book times `timeAt 0 cs` are the in-memory times
+exactly on the snap grid and within 1/192 beat (at the tempo in force) otherwise.
+
+What is assembled here: `write_positions` (K1 as run), `written_lane_sorted`, `pairLane_atoms`.
+Exactly what is still outside (`_partial`):
+* `hch` — "the file's lines give channel `ch` an arrangement of these objects": proved as a membership equivalence
+  for the data lines (`written_objects`, `written_line_denotes`, `lineKeys_cover`) with the positions of
+  `slot_roundtrip` / `written_slot_time` / `newDens_dvd`; not yet as a permutation through `writeCells`, and the
+  header lines are not yet shown to contribute no data lines;
+* `hstrict` — follows from "no two objects in one (lane, slot)" + monotonicity of snapping (K1, not proved);
+* the header of the file (`readHeader` over all rendered header lines: the tempo table, `#BPM`, numbers are
+  `exbpm_table_readback`, `parseFloat_showExact`, `parseFloat_showFixed`) and the tempo list of the file
+  (`written_tempo_list`, any row order) are proved separately and not threaded through `denote` here. -/
+theorem bms_write_read_partial (cs : List BcSnap) (hwf : wfChanges cs = true) (hs : sortedSnaps cs = true)
+    (h0 : firstAtZero cs = true) (hgc : gridCompatible (grid defaultMaxDiv) cs = true) (hm : metronomeOk cs = true)
+    (ln : Bytes) (so : Bytes → Bytes) (notes : List (Bytes × Bytes × Bytes)) (ch : Bytes) (col : Nat)
+    (items : List TAtom) (hid : ∀ a ∈ items, a.idOk ln) (hts : ∀ a ∈ items, ∀ t ∈ a.times, 0 ≤ t) :
+    ∃ F : Rat → Snap,
+      snaps defaultGrid (tmOf 0 cs) (items.flatMap TAtom.times) = .ok ((items.flatMap TAtom.times).map F) ∧
+      ∀ os, channelObjs notes ch = some os →
+        os.Perm ((items.map (TAtom.toAtom F ln)).flatMap Atom.objs) →
+        strictAsc ((items.map (TAtom.toAtom F ln)).flatMap Atom.objs) = true →
+        denoteLane (some ln) so notes (ch, col) =
+          some ((items.map (TAtom.toAtom F ln)).flatMap (Atom.hits so col),
+                (items.map (TAtom.toAtom F ln)).flatMap (Atom.holds so col)) ∧
+        ∀ a ∈ items, ∀ t ∈ a.times,
+          rabs (timeAt 0 cs (posOf (F t)) - t) ≤ 1 / 192 * activeBeatLen 0 cs t ∧
+          (OnGridAt (grid defaultMaxDiv) 0 cs t → timeAt 0 cs (posOf (F t)) = t) := by
+  have hall : ∀ t ∈ items.flatMap TAtom.times, 0 ≤ t := by
+    intro t ht
+    obtain ⟨a, ha, hta⟩ := List.mem_flatMap.mp ht
+    exact hts a ha t hta
+  obtain ⟨F, hF, hFt⟩ := write_positions cs hwf hs h0 hgc hm _ hall
+  refine ⟨F, hF, ?_⟩
+  intro os hch hos hstrict
+  constructor
+  · obtain ⟨hsorted, hsa⟩ := written_lane_sorted os _ hos hstrict
+    have hwfA : ∀ a ∈ items.map (TAtom.toAtom F ln), a.wf ln := by
+      intro a ha
+      obtain ⟨x, hx, rfl⟩ := List.mem_map.mp ha
+      have := hid x hx
+      cases x with
+      | hit t id => exact this
+      | hold t1 t2 id => exact ⟨this, rfl⟩
+    unfold denoteLane
+    simp only [hch, hsorted, hstrict, if_true]
+    exact pairLane_atoms ln so col _ hwfA
+  · intro a ha t ht
+    have := hFt t (List.mem_flatMap.mpr ⟨a, ha, ht⟩)
+    rw [timeAt_posOf]
+    exact ⟨this.2.1, this.2.2⟩
 
 /-! ### D06 -/
 
